@@ -47,6 +47,23 @@ def load(data, dic=None, as_main=True):
     return objs, dic
 
 
+class SubjectError(Exception):
+    """Raised by the harness when the subject returned something unusable (None, wrong type)."""
+
+    def __init__(self, sig, msg):
+        super().__init__(msg)
+        self.sig = sig
+
+
+def as_np(x, sig, what="value"):
+    """Tensor returned by the subject -> numpy array; anything else is a violation of `sig`."""
+    import torch
+
+    if not isinstance(x, torch.Tensor):
+        raise SubjectError(sig, "%s returned by the subject is %r, not a tensor" % (what, type(x).__name__))
+    return x.detach().cpu().numpy()
+
+
 def viol(sig, msg, **detail):
     return {"sig": sig, "msg": msg, "detail": detail}
 
